@@ -308,6 +308,43 @@ func panSharedSpace() *panSpace {
 	}}
 }
 
+// two-groups: two rules that each use an address-group as source and as
+// destination; device references over {gA,gB}, target references over
+// {gA,gB,gC} with changed or unchanged contents.
+func panTwoGroupSpace() *panSpace {
+	names := []string{"gA", "gB", "gC"}
+	contA := [][]string{{"a1", "a2"}, {"a1", "a2", "a3"}}
+	contB := [][]string{{"a3", "a4"}, {"a3"}}
+	contC := [][]string{{"a1", "a2"}, {"a5"}}
+	const nd, nt = 16, 81
+	used := func(rs []panRuleT, all map[string][]string) map[string][]string {
+		m := map[string][]string{}
+		for _, r := range rs {
+			for _, n := range append(append([]string{}, r.src...), r.dst...) {
+				if c, ok := all[n]; ok {
+					m[n] = c
+				}
+			}
+		}
+		return m
+	}
+	return &panSpace{name: "two-groups", n: nd * nt * 8, gen: func(i int64) (string, core.Files) {
+		cv := int(i % 8)
+		i /= 8
+		t := int(i % nt)
+		d := int(i / nt)
+		mk := func(x1, y1, x2, y2 string) []panRuleT {
+			return []panRuleT{{"allow", "z1", "z2", []string{x1}, []string{y1}, []string{"tcp 80"}, ""},
+				{"allow", "z2", "z1", []string{x2}, []string{y2}, []string{"tcp 80"}, ""}}
+		}
+		dr := mk(names[d%2], names[d/2%2], names[d/4%2], names[d/8%2])
+		tr := mk(names[t%3], names[t/3%3], names[t/9%3], names[t/27%3])
+		dev := panVsysT{name: "vsys1", rules: dr, groups: used(dr, map[string][]string{"gA": contA[0], "gB": contB[0]})}
+		tgt := panVsysT{name: "vsys1", rules: tr, groups: used(tr, map[string][]string{"gA": contA[cv%2], "gB": contB[cv/2%2], "gC": contC[cv/4%2]})}
+		return panConfig(dev), core.Files{Main: panConfig(tgt)}
+	}}
+}
+
 // services and service groups
 func panSvcSpace() *panSpace {
 	type sv struct {
@@ -422,7 +459,10 @@ func (x *panx) runCase(sp *panSpace, idx int64, a string, b core.Files, tag stri
 		}
 		return nil
 	case 2:
-		res.Count("tool_panic(see C20)", 1)
+		res.Count("tool_panic", 1)
+		if sp.name != "corpus" || tag != "" { // corpus inputs may be malformed on purpose: C20's matter
+			x.violation(sp, idx, a, b, nil, 0, "no-panic", tag+"panic:"+out.Site, out.Panic)
+		}
 		return nil
 	}
 	res.Transitions++
@@ -602,7 +642,7 @@ func (x *panx) runChain() {
 }
 
 func panSpaces(ctx *core.Ctx) []*panSpace {
-	l := []*panSpace{panRuleSpace("rules", 6, 2), panObjSpace("objs", 4), panSharedSpace(), panSvcSpace(), panVsysSpace(), panCorpusSpace()}
+	l := []*panSpace{panRuleSpace("rules", 6, 2), panObjSpace("objs", 4), panSharedSpace(), panTwoGroupSpace(), panSvcSpace(), panVsysSpace(), panCorpusSpace()}
 	if ctx.Thorough() {
 		l = append(l, panRuleSpace("rules-x", 7, 3), panObjSpace("objs-x", 5))
 	}
